@@ -739,6 +739,21 @@ def _sites():
             (f"dumper.clean.{hook}.response_reason", hook, http_flow(set_("response.reason", lambda p: "OK" + p), e), {}),
             (f"dumper.clean.{hook}.response_trailers", hook, http_flow(lambda f, p: setattr(f.response, "trailers", http.Headers([(b"t-" + b(p), b"v" + b(p))])), e), {}),
         ]
+    def body_as(which, ctype, prefix):
+        def mut(f, p):
+            m = getattr(f, which)
+            m.headers["content-type"] = ctype
+            m.content = prefix + b(p)
+        return mut
+
+    # bodies the auto-selected view cannot parse (raw fallback) and bodies shown with an explicitly chosen view that fails
+    for which in ("request", "response"):
+        S += [
+            (f"dumper.clean.response.{which}_content_unparsable_json", "response", http_flow(body_as(which, "application/json", b'{"a": "x')), {}),
+            (f"dumper.clean.response.{which}_content_unparsable_msgpack", "response", http_flow(body_as(which, "application/msgpack", bytes([0xC1]))), {}),
+            (f"dumper.clean.response.{which}_content_unparsable_protobuf", "response", http_flow(body_as(which, "application/x-protobuf", bytes([0xFF, 0xFF, 0xFF]))), {}),
+            (f"dumper.clean.response.{which}_content_explicit_view_fails", "response", http_flow(body_as(which, "text/plain", b"not json ")), {"view": "json"}),
+        ]
     S += [
         ("dumper.clean.error.error_msg", "error", http_flow(lambda f, p: setattr(f, "error", flow.Error("err" + p)), True), {}),
         ("dumper.clean.websocket_message.content_text", "websocket_message", ws_flow(ws_msg(True)), {}),
@@ -790,7 +805,7 @@ def bounded(tier, seed):
         d.out_has_vt_codes = styled
         with taddons.context(d) as tctx:
             for check, hook, mk, opts in sites:
-                tctx.configure(d, flow_detail=detail, showhost=bool(opts.get("showhost")))
+                tctx.configure(d, flow_detail=detail, showhost=bool(opts.get("showhost")), dumper_default_contentview=opts.get("view", "auto"))
                 for p in C0_PAYLOADS + C1_PAYLOADS:
                     f = mk(p)
                     sio.seek(0)
